@@ -229,6 +229,20 @@ Theorem C04_relabel_frame : forall g group f, NoDup (ids f) -> NoDup group -> in
 Proof. exact relabel_rows. Qed.
 Print Assumptions C04_relabel_frame.
 
+(* ---- del tree[key] removes the one node the key resolves to; rename is set_data on a str node ---- *)
+Theorem C04_del : forall w ti key r w',
+  step w (ODel ti key) = (Ok r, w') ->
+  exists t n, get_tree w ti = Some t /\ getitem t key = Some [n] /\ step w (ORemove ti n false false) = (Ok r, w').
+Proof. exact del_effect. Qed.
+Print Assumptions C04_del.
+
+Theorem C04_rename : forall w ti n d r w',
+  step w (ORename ti n d) = (Ok r, w') ->
+  exists t s, get_tree w ti = Some t /\ get_node n (forest_of t) = Some s /\ i_isstr (rinfo s) = true /\
+              step w (OSetData ti n (Some d) None None) = (Ok r, w').
+Proof. exact rename_effect. Qed.
+Print Assumptions C04_rename.
+
 (* ---- frame across trees, for EVERY operation and EVERY outcome (success, refusal, failing
         callback): only the tree the operation works on can change; existing trees are never
         dropped (ext = no shorter, and equal at every other index) ---- *)
